@@ -3,7 +3,8 @@ Proof: coq/Properties_C14.v (plan validity, termination, assignment shape/unspli
 repaired code in computeAssignment / convertAssignmentBack, F11 witness for the unchanged one, certificate soundness, optimality for all
 inputs without size bound (c14_optimal) + bounded cross-checks).
 Tie: EXACT diff of Transportation1d::balanceDemand/solve()/assign() (compiled from /repo's working tree) against the
-extracted model on exhaustive small-bounds + random instances; the same cases under ASan (bounds/pointer groups,
+extracted model on exhaustive small-bounds + random instances (incl. the stream `big`: amounts up to 2^40, totals past 2^31 and
+2^32 -- the model is over Z, so an accumulator narrower than long long shows); the same cases under ASan (bounds/pointer groups,
 no signed-overflow group) for the memory clause.  Search: the statement itself is evaluated on the C++ output
 (independent Python oracle for validity / assignment, independent min-cost-flow optimum in the harness, the PROVED
 certificate checker check_plan on the C++ plan)."""
